@@ -41,6 +41,21 @@ theorem utf8_decodes_first (cp : Nat) (h : cp < 0x110000) (tl : List Nat) (len :
   rw [utf8_agrees cp h] at hl ⊢
   exact decode_spec_prefix cp h tl len hl
 
+/-- the encoder is injective and its code is prefix-free, for ALL pairs of code points and ALL continuations: if the encoding of
+    `a` followed by any bytes equals the encoding of `b` followed by any bytes then `a = b` and the continuations are equal - so a
+    concatenation of encoded code points can be cut back into them in exactly one way (no encoding is a proper prefix of another,
+    two code points never share an encoding) -/
+theorem utf8_injective_and_prefix_free (a b : Nat) (ha : a < 0x110000) (hb : b < 0x110000) (ta tb : List Nat)
+    (h : toString a ++ ta = toString b ++ tb) : a = b ∧ ta = tb := by
+  have h1 := utf8_decodes_first a ha ta ((toString a).length + (toString b).length) (by omega)
+  have h2 := utf8_decodes_first b hb tb ((toString a).length + (toString b).length) (by omega)
+  rw [h, h2] at h1
+  have hab : a = b := by injection h1 with h1; exact h1.symm
+  subst hab
+  exact ⟨rfl, List.append_cancel_left h⟩
+
+example : toString 0x41 ++ [0x80] = toString 0x41 ++ [0x80] ∧ 0x41 < 0x110000 := by decide
+
 /-- `Unicode::length` of the first byte the encoder emits is the number of bytes it emits -/
 theorem length_of_encoded (cp : Nat) (h : cp < 0x110000) :
     ∃ b tl, toString cp = b :: tl ∧ utf8Length b = (toString cp).length := by
